@@ -142,4 +142,131 @@ theorem nvi_formula (N : Nat) (fs : List ℝ) (x : Nat → Nat → ℝ) :
   show (PS.cumul N 1 (fs.getD 0 Ind.zero) (fun acc i => if Arith.le (x 1 i - x 1 (i - 1)) Ind.zero then acc + (x 0 i - x 0 (i - 1)) / x 0 (i - 1) * acc else acc)).val i = _
   rw [hF]
 
+/-- Kaufman's recurrence: the first value starts from the previous closing, later ones from the previous KAMA -/
+theorem agree_kama_scan {x : Nat → Nat → ℝ} {a b c : Sig ℝ} {PA PB PC : PS ℝ} (N : Nat)
+    (ha : Agree x a PA) (hb : Agree x b PB) (hc : Agree x c PC) (hs1 : PA.start = PB.start) (hs2 : PA.start = PC.start) :
+    Agree x (Sig.scan3 (Option ℝ) none Ind.kamaStep a b c)
+      (PS.cumul N PA.start Ind.zero (fun acc i =>
+        (if i = PA.start then PA.val i else acc) + PC.val i * (PB.val i - (if i = PA.start then PA.val i else acc)))) := by
+  have hoffa := ha.offD
+  constructor
+  · simp [off, ha.1, hb.1, hc.1, join2, ← hs1, ← hs2, PS.cumul]
+  · intro i hi
+    simp only [PS.cumul] at hi ⊢
+    simp only [den, hoffa, PS.tabVal_eq, scanOut3]
+    have key : ∀ m, (scanSt3 Ind.kamaStep none
+        (fun m => den x a (PA.start + m)) (fun m => den x b (PA.start + m)) (fun m => den x c (PA.start + m)) (m + 1))
+        = some (PS.recG (PA.val PA.start + PC.val PA.start * (PB.val PA.start - PA.val PA.start))
+            (fun acc k => acc + PC.val (PA.start + k + 1) * (PB.val (PA.start + k + 1) - acc)) m) := by
+      intro m
+      induction m with
+      | zero =>
+        simp only [scanSt3, Ind.kamaStep, PS.recG, Nat.add_zero]
+        rw [ha.2 PA.start (Nat.le_refl _), hb.2 PA.start (by omega), hc.2 PA.start (by omega)]
+      | succ m ih =>
+        rw [scanSt3, ih]
+        simp only [Ind.kamaStep, PS.recG]
+        rw [hb.2 (PA.start + (m + 1)) (by omega), hc.2 (PA.start + (m + 1)) (by omega)]
+        simp [Nat.add_assoc]
+    have h1 := key (i - PA.start)
+    simp only [scanSt3] at h1
+    -- the output of a step is the value stored in the new state
+    have hout : ∀ (st : Option ℝ) (p q r : ℝ), (Ind.kamaStep st p q r).1 = some (Ind.kamaStep st p q r).2 := by
+      intro st p q r; rfl
+    rw [hout] at h1
+    have h2 := Option.some.inj h1
+    rw [h2]
+    -- the documented recurrence has the same first value and the same update
+    have hf : (fun (acc : ℝ) (k : ℕ) =>
+        (if PA.start + k + 1 = PA.start then PA.val (PA.start + k + 1) else acc) +
+          PC.val (PA.start + k + 1) *
+            (PB.val (PA.start + k + 1) - if PA.start + k + 1 = PA.start then PA.val (PA.start + k + 1) else acc))
+        = (fun acc k => acc + PC.val (PA.start + k + 1) * (PB.val (PA.start + k + 1) - acc)) := by
+      funext acc k
+      have : ¬ (PA.start + k + 1 = PA.start) := by omega
+      simp only [this, if_false]
+    simp only [if_true, hf]
+
+theorem kama_formula (N : Nat) (er fast slow : Nat) (fs : List ℝ) (h0 : 1 ≤ er) (x : Nat → Nat → ℝ) :
+    ∃ e ps, lookup "Kama" [er, fast, slow] fs = some e ∧ Spec.formulas N "Kama" [er, fast, slow] fs x = some ps ∧
+      List.Forall₂ (Agree x) e.outs ps := by
+  refine ⟨_, _, rfl, rfl, ?_⟩
+  refine List.Forall₂.cons ?_ List.Forall₂.nil
+  simp only [Ind.kama, Ind.i0, List.getD_cons_zero, List.getD_cons_succ]
+  have hA : Agree x (Sig.lag 1 (Sig.skip (er - 1) (Sig.input 0))) ⟨er, fun i => x 0 (i - 1)⟩ := by
+    apply Sig.Agree.cast
+    agree_core N
+    all_goals (first | (simp; omega) | (intro i hi; rfl))
+  have hB : Agree x (Sig.skip er (Sig.input 0)) ⟨er, x 0⟩ := by
+    apply Sig.Agree.cast
+    agree_core N
+    all_goals (first | (simp; done) | (intro i hi; rfl))
+  -- the smoothing constant stream
+  set fastSc : ℝ := Spec.two / Arith.nat (fast + 1) with hfast
+  set slowSc : ℝ := Spec.two / Arith.nat (slow + 1) with hslow
+  have hC : Agree x
+      (Ind.pow2 (Ind.incBy (Ind.two / Arith.nat (slow + 1)) (Ind.mulBy (Ind.two / Arith.nat (fast + 1) - Ind.two / Arith.nat (slow + 1))
+        (Ind.div (Ind.absS (Ind.change er (Sig.input 0))) (Ind.movingSum er (Ind.absS (Ind.change 1 (Sig.input 0))))))))
+      (PS.map (fun e => Arith.sq (e * (fastSc - slowSc) + slowSc))
+        (PS.map Arith.abs (PS.input (x 0) - PS.prev er (PS.input (x 0))) /
+          PS.msum er (PS.map Arith.abs (PS.input (x 0) - PS.prev 1 (PS.input (x 0)))))) := by
+    unfold_light
+    agree_tac N
+  have hst : (PS.map (fun e => Arith.sq (e * (fastSc - slowSc) + slowSc))
+        (PS.map Arith.abs (PS.input (x 0) - PS.prev er (PS.input (x 0))) /
+          PS.msum er (PS.map Arith.abs (PS.input (x 0) - PS.prev 1 (PS.input (x 0)))))).start = er := by
+    simp [PS.map, PS.map2, PS.msum, PS.prev, PS.input]
+    omega
+  have h := agree_kama_scan N hA hB hC rfl hst.symm
+  refine h.cast (by simp [PS.cumul]; exact hst.symm) ?_
+  intro i _
+  simp only [PS.cumul]
+  rw [hst]
+
+theorem mf_pos (d r : ℝ) (hr : 0 ≤ r) :
+    (if 0 < (if 0 < d then (1 : ℝ) else if d < 0 then -1 else 0) * r then (if 0 < d then (1 : ℝ) else if d < 0 then -1 else 0) * r else 0)
+      = if 0 < d then r else 0 := by
+  by_cases h1 : 0 < d
+  · simp only [h1, if_true, one_mul]
+    split
+    · rfl
+    · linarith
+  · by_cases h2 : d < 0
+    · simp only [h1, h2, if_true, if_false]
+      have : ¬ (0 < -1 * r) := by linarith
+      simp only [this, if_false]
+    · simp [h1, h2]
+
+theorem mf_neg (d r : ℝ) (hr : 0 ≤ r) :
+    (if (if 0 < d then (1 : ℝ) else if d < 0 then -1 else 0) * r < 0 then (if 0 < d then (1 : ℝ) else if d < 0 then -1 else 0) * r else 0) * -1
+      = if d < 0 then r else 0 := by
+  by_cases h1 : 0 < d
+  · have h2 : ¬ d < 0 := by linarith
+    have : ¬ (1 * r < 0) := by linarith
+    simp only [h1, h2, this, if_true, if_false, zero_mul]
+  · by_cases h2 : d < 0
+    · simp only [h1, h2, if_true, if_false]
+      by_cases h3 : -1 * r < 0
+      · simp only [h3, if_true]; ring
+      · simp only [h3, if_false]; linarith
+    · simp [h1, h2]
+
+theorem mfi_formula (N : Nat) (p : Nat) (fs : List ℝ) (h0 : 1 ≤ p) (x : Nat → Nat → ℝ)
+    (hx : ∀ i, 0 ≤ (x 0 i + x 1 i + x 2 i) / 3 * x 3 i) :
+    ∃ e ps, lookup "Mfi" [p] fs = some e ∧ Spec.formulas N "Mfi" [p] fs x = some ps ∧
+      List.Forall₂ (Agree x) e.outs ps := by
+  refine ⟨_, _, rfl, rfl, ?_⟩
+  unfold_light
+  repeat' (first | apply List.Forall₂.cons | apply List.Forall₂.nil)
+  apply Sig.Agree.cast
+  agree_core N
+  all_goals (try ps_simp)
+  any_goals omega
+  intro i hi
+  simp only [ArithReal.arith_nat, ArithReal.div_eq, ArithReal.mul_eq, ArithReal.add_eq, ArithReal.sub_eq, Ind.one, Ind.hundred, Ind.negOne, Ind.zero,
+    ArithReal.arith_neg, ArithReal.arith_inv, ArithReal.arith_gt, ArithReal.arith_lt, Spec.hundred, Spec.one, Spec.zero]
+  push_cast
+  simp only [mf_pos _ _ (hx _), mf_neg _ _ (hx _)]
+  ring
+
 end C01
